@@ -325,6 +325,7 @@ class Check:
     def finish(self):
         known = _load_known(self.pid)
         violations, known_hits, inconclusive = [], [], []
+        groups: dict = {}
         n_claims = n_triv = 0
         stats_total = {"queries": 0, "unsat": 0, "sat": 0, "unknown": 0, "solver_time_s": 0.0, "by_tag": {}, "max_free_vars_in_a_query": 0}
         samples = []
@@ -353,16 +354,40 @@ class Check:
                 if f["status"] == "unknown":
                     inconclusive.append(f"{rec['scenario']} {rec['params']} claim {f['name']}: solver unknown")
                     continue
+                fam = (rec["scenario"], f["name"].split("[")[0], json.dumps({k: v for k, v in rec["params"].items() if k not in ("shape", "view")}, sort_keys=True))
+                groups.setdefault(fam, []).append((rec, f))
+        # replay one counterexample per claim family (next ones only if it does not reproduce)
+        fams = list(groups.items())
+        self.extra["counterexample_families"] = len(fams)
+        MAX_FAMILIES = 12
+
+        def work(item):
+            fam, lst = item
+            last = None
+            for rec, f in lst[:3]:
                 rp = self._write_replay(rec, f)
-                kf = _match_known(known, rec, f)
                 ok, out = self._replay(rp)
+                last = (rec, f, rp, ok, out)
+                if ok is True:
+                    break
+            return last
+
+        if fams:
+            from concurrent.futures import ThreadPoolExecutor
+
+            with ThreadPoolExecutor(max_workers=min(8, len(fams))) as ex:
+                results = list(ex.map(work, fams[:MAX_FAMILIES]))
+            for (fam, lst), (rec, f, rp, ok, out) in zip(fams[:MAX_FAMILIES], results):
+                kf = _match_known(known, rec, f)
                 if ok is True:
                     if kf is not None:
                         known_hits.append((kf, rec, f, rp))
                     else:
-                        violations.append((rec, f, rp, out))
+                        violations.append((rec, f, rp, out, len(lst)))
                 else:
                     inconclusive.append(f"{rec['scenario']} {rec['params']} claim {f['name']}: counterexample did not reproduce on the real code ({out.strip()[-200:]}); replay={rp}")
+            if len(fams) > MAX_FAMILIES:
+                self.extra["counterexample_families_not_replayed"] = len(fams) - MAX_FAMILIES
         for e in self.errors:
             inconclusive.append(e)
         seen = set()
@@ -371,9 +396,9 @@ class Check:
                 continue
             seen.add(kf["id"])
             print(f"KNOWN-FINDING: property={self.pid} {kf['id']}: {kf['what']} (witness replay={rp})")
-        for rec, f, rp, out in violations:
+        for rec, f, rp, out, nfam in violations:
             print(f"VIOLATION property={self.pid} replay={rp}")
-            print(f"  scenario={rec['scenario']} params={json.dumps(rec['params'])} claim={f['name']}")
+            print(f"  scenario={rec['scenario']} params={json.dumps(rec['params'])} claim={f['name']} (+{nfam - 1} more refuted obligations of this family)")
             print("  " + out.strip().splitlines()[-1] if out.strip() else "")
         for s in inconclusive:
             print(f"INCONCLUSIVE property={self.pid} {s}")
